@@ -295,7 +295,7 @@ func viewOf(r *Replica) string {
 
 // docReads walks the document through GetFromObject / GetFromArray and prints every value.
 func docReads(sb *strings.Builder, d orda.Document, depth int) {
-	if d == nil || depth > 4 {
+	if d == nil || depth > 40 {
 		return
 	}
 	switch d.GetTypeOfJSON() {
